@@ -64,6 +64,7 @@ type shape struct {
 	nTarget  int
 	target   map[int]bool
 	tr       data.Trie // the source trie (what honest peers serve from)
+	viewRoot int       // 0 = the target trie; otherwise the id of the root this view syncs
 }
 
 func newTrie() (data.Trie, data.DBWriteCacher) {
@@ -406,4 +407,29 @@ func genShapes() error {
 	fmt.Fprintf(&out, "AllShapes == {%s}\n====\n", strings.Join(names, ", "))
 	fmt.Print(out.String())
 	return nil
+}
+
+// otherView is the same set of nodes seen by a syncer that is asked for the OTHER trie of the shape
+func (s *shape) otherView() *shape {
+	o := *s
+	o.rootHash = s.nodes[s.spec.Froot-1].hash
+	o.leaves = map[string]string{}
+	for _, e := range s.spec.Fkv {
+		k, _ := hex.DecodeString(e[0])
+		o.leaves[string(k)] = e[1]
+	}
+	o.target = map[int]bool{}
+	var walk func(id int)
+	walk = func(id int) {
+		if id == 0 || o.target[id] {
+			return
+		}
+		o.target[id] = true
+		for _, k := range s.nodes[id-1].kids {
+			walk(k)
+		}
+	}
+	walk(s.spec.Froot)
+	o.viewRoot = s.spec.Froot
+	return &o
 }
